@@ -60,11 +60,13 @@ type Result struct {
 
 // Env is handed to a property's Run function, inside the bubble.
 type Env struct {
-	K      *kernel.Kernel
-	Res    *Result
-	AtEnd  []func()
-	Tier   string
-	Replay bool
+	// Context, when set, is appended to every violation detail (e.g. the operation records).
+	Context func() string
+	K       *kernel.Kernel
+	Res     *Result
+	AtEnd   []func()
+	Tier    string
+	Replay  bool
 }
 
 // Fail records a violation.
@@ -72,6 +74,9 @@ func (e *Env) Fail(clause, site, format string, a ...interface{}) {
 	d := fmt.Sprintf(format, a...)
 	if len(d) > 1500 {
 		d = d[:1500] + "...(truncated)"
+	}
+	if e.Context != nil {
+		d += "\n--- context ---\n" + e.Context()
 	}
 	e.Res.Violations = append(e.Res.Violations, Violation{Clause: clause, Site: site, Detail: d})
 }
@@ -163,6 +168,7 @@ type Meta struct {
 	QuickRuns   int               `json:"quick_runs"`
 	ThoroughS   int               `json:"thorough_s"`
 	Legs        []Leg             `json:"legs,omitempty"`
+	Expand      bool              `json:"expand"`
 }
 
 // Prop is one property's machinery.
@@ -175,6 +181,9 @@ type Prop struct {
 	New func() Scenario
 	// Run executes the scenario; it is the bubble's root goroutine and must call env.K.Run.
 	Run func(env *Env, sc Scenario)
+	// Expand, when set, turns a base scenario (already run fault-free, result given) into the
+	// enumerated fault variants that are run next (sub-runs 1..n of the same run index).
+	Expand func(base Scenario, res *Result, tier string) []Scenario
 	// Shrink proposes simpler scenarios (optional).
 	Shrink func(sc Scenario) []Scenario
 	// Sample renders a scenario for the evidence file (optional; default: the JSON itself).
@@ -325,6 +334,7 @@ type ReplayFile struct {
 	Property  string          `json:"property"`
 	Seed      uint64          `json:"seed"`
 	Run       int             `json:"run"`
+	Sub       int             `json:"sub,omitempty"`
 	Tier      string          `json:"tier"`
 	Signature string          `json:"signature"`
 	Scenario  json.RawMessage `json:"scenario"`
